@@ -1,4 +1,5 @@
 import XlModel.CalcTotal
+import XlModel.Nest
 import XlModel.Drv.Util
 /-
 Line-protocol driver for C09.
@@ -497,7 +498,10 @@ def runOpn (x : String) : String :=
 def step (w : List String) : String :=
   match w with
   | "ev" :: toks => match parseToks toks with
-    | some ts => showOutcome (evalTokens semC ts)
+    | some ts =>
+      -- hypothesis of `eval_no_panic_functions`: properly nested and free of array constants
+      let hyp := CalcTotal.nested [] 0 ts && ts.all fun t => !(isFuncStart t && (t.val == "ARRAY" || t.val == "ARRAYROW"))
+      showOutcome (evalTokens semC ts) ++ (if hyp then " h=1" else " h=0")
     | none => "bad-op"
   | "opn" :: rest => (match rest.getLast? with
     | some x => runOpn x
